@@ -158,7 +158,15 @@ fn run_case(line: &str) -> String {
             if a[0] == "sel" {
                 h::record_start();
             }
-            let r = h::qrcode_new(&input, e, v, m, k);
+            // through the PUBLIC builder (QRBuilder::new + setters + build), the way a user reaches QRCode::new
+            let r = {
+                let mut b = fast_qr::QRBuilder::new(input.clone());
+                if let Some(x) = m { b.mode(x); }
+                if let Some(x) = e { b.ecl(x); }
+                if let Some(x) = v { b.version(x); }
+                if let Some(x) = k { b.mask(x); }
+                b.build()
+            };
             let rec = if a[0] == "sel" { h::record_take() } else { vec![] };
             match r {
                 Ok(q) => {
@@ -189,7 +197,13 @@ fn run_case(line: &str) -> String {
             let v = opt_idx(a[3]).map(|i| VERSIONS[i]);
             let m = opt_idx(a[1]).map(|i| MODES[i]);
             h::record_start();
-            let r = h::qrcode_new(&unhex(a[5]), e, v, m, None);
+            let r = {
+                let mut b = fast_qr::QRBuilder::new(unhex(a[5]));
+                if let Some(x) = m { b.mode(x); }
+                if let Some(x) = e { b.ecl(x); }
+                if let Some(x) = v { b.version(x); }
+                b.build()
+            };
             let rec = h::record_take();
             match r {
                 Ok(q) => {
